@@ -186,7 +186,33 @@ package model
 //@   ensures[C19] reads-back: zform(*a) ==> result1 == nil && tinst(result0) == txtinst(*a)
 //@   modifies nothing
 //@ func NewAbsoluteOrRelativeTimeTypeFromTime
-//@   ensures[C19] denotes-instant: result != nil && txtinst(*result) == rndsec(tinst(t))
+//@   ensures[C19] denotes-instant: result != nil && txtinst(*result) == rndsec(tinst(t)) && zform(*result) && fresh(result)
+//@   modifies nothing
+
+// time periods on the wire (C18): the only custom JSON marshaller pair of the data model. A period with a start time,
+// or without an end time, is written and read verbatim; only the end time of an open period (no start, end given) is
+// converted (relative on the wire, absolute in memory). Decoding must leave alone exactly what encoding leaves alone.
+//@ func getTimePeriodTypeDuration
+//@   requires t != nil
+//@   ensures[C18] closed-periods-have-none: old(t.StartTime != nil || t.EndTime == nil) ==> result1 != nil
+//@   modifies wm
+//@ func (TimePeriodType).MarshalJSON
+//@   ensures[C18] start-kept: arg(Marshal, 0).(tempTimePeriodType).StartTime == t.StartTime
+//@   ensures[C18] closed-periods-verbatim: (t.StartTime != nil || t.EndTime == nil) ==> arg(Marshal, 0).(tempTimePeriodType).EndTime == t.EndTime
+//@   ensures[C18] encodes-that: result0 == res(Marshal, 0) && result1 == res(Marshal, 1)
+//@   modifies wm, jsonof
+//@ func NewAbsoluteOrRelativeTimeTypeFromDuration trusted
+//@   ensures result != nil && fresh(result)
+//@   modifies wm
+//@ func setTimePeriodTypeEndTime
+//@   requires t != nil
+//@   ensures[C18] start-kept: t.StartTime == old(t.StartTime)
+//@   ensures[C18] closed-periods-verbatim: old(t.StartTime != nil || t.EndTime == nil) ==> t.EndTime == old(t.EndTime)
+//@   ensures[C18] open-periods-absolute: old(t.StartTime == nil && t.EndTime != nil) && t.EndTime != old(t.EndTime) ==> t.EndTime != nil && fresh(t.EndTime) && zform(*t.EndTime)
+//@   modifies t.EndTime, wm
+//@ func (*AbsoluteOrRelativeTimeType).GetTimeDuration trusted
+//@   modifies nothing
+//@ func (*AbsoluteOrRelativeTimeType).IsRelativeTime trusted
 //@   modifies nothing
 
 // generic update engine entry (C05: reached from every partial write/notify/reply)
